@@ -22,6 +22,9 @@ func typedefsText(nm map[string]*types.StructType) string {
 		s := (&types.StructType{TypeName: name}).String()
 		fmt.Fprintf(&sb, "%s = type { i32, %s* }\n", s, s)
 	}
+	for name, text := range typeAliases {
+		fmt.Fprintf(&sb, "%s = type %s\n", (&types.StructType{TypeName: name}).String(), text)
+	}
 	return sb.String()
 }
 
@@ -348,6 +351,7 @@ func typeViaAsm(kind string, ts []types.Type, nm map[string]*types.StructType) s
 }
 
 func parseTys(nm map[string]*types.StructType, a []string) []types.Type {
+	typeAliases = map[string]string{}
 	ts := make([]types.Type, len(a))
 	for i := range a {
 		ts[i] = parseTyIn(nm, a[i])
